@@ -164,6 +164,14 @@ def solve(jobs):
             where = ""
             if any(d is None for d in diffs):
                 diffs = []
+            # opaque sub-variates / helper calls inside arithmetic (Zipf_inv_cdf(self, p)): each distinct application is an arbitrary positive number
+            from sympy.core.function import AppliedUndef
+            apps = sorted({a_ for d in diffs for a_ in d.atoms(AppliedUndef)} | set(term.atoms(AppliedUndef)), key=str)
+            if apps:
+                repl = {a_: sp.Symbol("opq%d_" % k_, positive=True) for k_, a_ in enumerate(apps)}
+                diffs = [d.xreplace(repl) for d in diffs]
+                term = term.xreplace(repl)
+                free = sorted({s_ for d in diffs for s_ in d.free_symbols} | set(term.free_symbols), key=lambda s_: s_.name)
             for d in diffs:
                 nz = False
                 for tp in TEST_POINTS:
